@@ -36,6 +36,12 @@ def _catc(ctx, ch):
     z = strz(ch)
     if ctx.st.ghost.get('$unfold_catc'):
         ctx.st.fact(CATC(z) == catc_z(ctx.engine, z))
+    else:
+        # range of the table (computed from the real CATEGORY_CODES): only these categories are ever assigned
+        table = ctx.engine.repo.glob('category', 'CATEGORY_CODES')
+        cats = sorted({int(c) for c in table} | {ctx.engine.repo.enum('CC')['Other']})
+        lo, hi = min(cats), max(cats)       # an interval with holes: literals only, no case split
+        ctx.st.fact(And(CATC(z) >= lo, CATC(z) <= hi, *[CATC(z) != c for c in range(lo, hi + 1) if c not in cats]))
     return VI(CATC(z))
 
 
@@ -281,6 +287,7 @@ def cnt_base(eng, st, *_):
             for a in st.ghost.get('anchors:' + ref, []):
                 if not a.eq(i):       # distinct categories count disjoint sets of positions
                     st.fact(Implies(a < i, CNT(Q, cc['Spacer'], a + 1, i) + CNT(Q, cc['EndOfLine'], a + 1, i) <= i - a - 1))
+                    st.fact(Implies(a < i, CNT(Q, cc['Ignored'], a + 1, i) + CNT(Q, cc['Invalid'], a + 1, i) <= i - a - 1))
 
 
 REG.entry_hooks.append(cnt_base)
